@@ -498,6 +498,15 @@ Proof.
   - pose proof (T rs Hl' r Hr). lia.
 Qed.
 
+Lemma storage_minimal : forall W, 1 <= W <= 128 ->
+  In (storage W) [8; 16; 32; 64; 128] /\ W <= storage W /\
+  forall s, In s [8; 16; 32; 64; 128] -> W <= s -> storage W <= s.
+Proof.
+  intros W HW. unfold storage.
+  destruct (N.leb_spec W 8); [|destruct (N.leb_spec W 16); [|destruct (N.leb_spec W 32); [|destruct (N.leb_spec W 64)]]];
+    (split; [cbn; tauto|split; [lia|]]); intros s Hs Hle; cbn in Hs; lia.
+Qed.
+
 Lemma storage_range W : 1 <= storage W <= 128.
 Proof.
   unfold storage. destruct (W <=? 8); [lia|]. destruct (W <=? 16); [lia|].
